@@ -23,6 +23,7 @@ class C32(Check):
     harness_src = "harness/h_hasht.c"
     harness_cflags = ("-DBUILDING_PARSEC",)
     link_parsec = True
+    race = True          # failing-schedule search on the implementation alone: plain accesses are scheduling points too
     level_text = ("Three layers. (1) Sequential: an executable model of parsec_hash_table.c (chain of tables newest first, buckets as lists "
                   "with their cur_len counters, used_buckets, head insertion, find-migrates-to-newest, unlinking of emptied old tables, "
                   "resize decided at insert/unlock_bucket from max_collisions_hint and max_table_nb_bits) is proved to refine a finite map "
@@ -36,12 +37,18 @@ class C32(Check):
                   "after every operation) and T-sched (real parsec_hash_table.c + parsec_rwlock.c under chosen schedules, compared step for step "
                   "-- results, invocation/response steps, final chain of tables, rw-lock words, per-thread step counts -- with an atomic-step "
                   "model that has one step per scheduling point); the oracle replays a dict (T-seq) and checks linearizability per key (T-sched). "
-                  "Full for (1) and (2); (3) is full at the stated granularity with bucket locks and the rw-lock as primitives.")
+                  "Full for (1) and (2); (3) is full at the stated granularity with bucket locks and the rw-lock as primitives. "
+                  "The proved critical-section model is itself run on every T-sched case: the driver feeds lstep the section boundaries "
+                  "crossed by the atomic-step model (which agrees with the code step for step) and requires that it is never blocked, logs the "
+                  "same results per thread and ends with the same items in the same buckets. A failing-schedule search on the implementation "
+                  "alone (clang -fsanitize=thread build + tsanrt.c: every plain or atomic access to the table is a scheduling point; all "
+                  "schedules with at most two preemptions on 3-thread histories around a resize, then random) is judged by the same oracle.")
     level_note = ("Trusted: Coq kernel, extraction, harness, cosched/interpose.h. The proof model of (3) (HashTLinDefs.v) is NOT the model that is "
                   "run against the code (HashTConcDefs.v): it merges lock;section;unlock of an old bucket into one step, takes lock semantics "
                   "(mutual exclusion of bucket locks, reader/writer exclusion: C33) as given, and represents the chain as the list of linked "
                   "tables (a table emptied through a stale prev pointer stays linked, empty, in the code and in HashTConcDefs.v). The two are "
-                  "related by construction and by the tests only. The tested model includes the TICKET rw-lock word for word; nothing is proved "
+                  "related by construction and by a tested (not proved) simulation: ocaml/d_hasht.ml projects every run of the atomic-step "
+                  "model onto lstep and compares results and final contents (tables without items ignored). The tested model includes the TICKET rw-lock word for word; nothing is proved "
                   "about it here. Keys are 64-bit with the generic key functions (key_hash = identity); user key_equal/key_hash callbacks, "
                   "the HELPFIRST variant, parsec_hash_table_stat and fini are not modelled. Sequentially consistent atomics; cur_len and "
                   "used_buckets do not overflow int32. for_all is only meaningful on a quiescent table (documented as not thread safe).")
@@ -53,6 +60,9 @@ class C32(Check):
             "enough to hit the 'cannot grow' branch; handle and non-handle API; 1/12 of the cases violate insert's precondition on purpose "
             "(model comparison only). sched: 1..16 threads, 1..5 operations each on a few hot keys (inserts only by the key's owner thread), "
             "tables pre-filled over several generations, schedules: sequential, round-robin, bursts, all-enter-first, one-thread-held-back, random. "
+            "race search: histories of 3 one-operation threads on a 2- or 4-bucket table with hint 0, keys that share their bucket before and "
+            "after the growth with extra hash bit 1; schedules X^a Y* X^b Z* X* for all role assignments, a<=16, b<=80 (sampled on a normal "
+            "run, exhaustive in chunks when the correspondence or a proof is broken), plus random bursts. "
             "Non-trivial = more than 12 tokens (seq) / at least 2 threads and an interleaving schedule (sched); distinct = case text")
     trusted = ("cosched.h/interpose.h scheduling points; harness/h_hasht.c redefines nanosleep to cos_spin() while including parsec_rwlock.c so that the "
                "rw-lock wait loops yield (after their first 1000 iterations) -- no change to the repository",
@@ -235,6 +245,98 @@ class C32(Check):
             out.append(self.seq_case(r))
         for _ in range(n):
             out.append(self.sched_case(r))
+        return out
+
+    # ---- failing-schedule search (implementation alone, judged by the oracle) --------------
+    # The harness built with clang -fsanitize=thread + tsanrt.c yields before EVERY access (plain or
+    # atomic) to the table, its heads, bucket arrays and items, so a window between two plain accesses
+    # (e.g. a bucket index computed before the read lock, a first_item update under the wrong lock) can
+    # be scheduled.  Histories: 3 threads, one operation each, on a table of 2 or 4 buckets with
+    # collision hint 0 (every insertion asks for a resize), keys whose extra hash bit after the growth is 1
+    # and that share their bucket before and after.  Schedules: first ALL schedules with at most two
+    # preemptions of one thread  X^a Y* X^b Z* X* (Y*, Z* = run to completion or until blocked), for every
+    # assignment of the threads to X, Y, Z and every a, b up to the length of an operation -- an
+    # exhaustive preemption-bounded search --, then random bursts.  A normal run samples this space; when
+    # the correspondence or a proof is broken the whole space is run, in chunks, until a chunk fails.
+    @staticmethod
+    def twin_keys(b, taken=()):
+        """two keys in the same bucket of a b-bit table and of a (b+1)-bit table, the latter being the
+        'upper' one (extra hash bit 1), plus a key that stays in another bucket"""
+        found = {}
+        for k in range(1, 4000):
+            if k in taken:
+                continue
+            lo, hi = rehash(k, b), rehash(k, b + 1)
+            if hi != lo:
+                found.setdefault((lo, hi), []).append(k)
+                if len(found[(lo, hi)]) == 2:
+                    x, y = found[(lo, hi)]
+                    z = next(q for q in range(1, 4000) if q not in (x, y) and q not in taken and rehash(q, b) != lo)
+                    return x, y, z
+        raise RuntimeError("no colliding keys")
+
+    def race_histories(self):
+        a, t, rz = self.twin_keys(1)
+        hs = [("sched 1 0 8 |  |", ["i %d 1" % a, "i %d 2" % rz, "i %d 3" % t])]
+        # one key already stored: with hint 0 its insertion grew the table to 2 bits and left it in the old table
+        a2, t2, rz2 = self.twin_keys(2)
+        hs.append(("sched 1 0 8 | i %d 9 |" % t2, ["i %d 1" % a2, "i %d 2" % rz2, "f %d" % t2]))
+        hs.append(("sched 1 0 8 | i %d 9 |" % t2, ["i %d 1" % a2, "i %d 2" % rz2, "r %d" % t2]))
+        return hs
+
+    def race_space(self, amax, bmax):
+        perms = [(0, 1, 2), (0, 2, 1), (1, 0, 2), (1, 2, 0), (2, 0, 1), (2, 1, 0)]
+        out = []
+        for a in range(1, amax + 1):
+            for (head, ops) in self.race_histories():
+                for (x, y, z) in perms:
+                    for b in range(1, bmax + 1):
+                        sc = [x] * a + [y] * 300 + [x] * b + [z] * 300 + [x] * 300
+                        out.append("%s %s | %s" % (head, " / ".join(ops), " ".join(map(str, sc))))
+        return out
+
+    def race_random(self, r, n):
+        out = []
+        hs = self.race_histories()
+        for _ in range(n):
+            head, ops = r.pick(hs)
+            ops = r.shuffle(ops)
+            sc = []
+            while len(sc) < 900:
+                sc += [r.below(3)] * r.range(1, 60)
+            out.append("%s %s | %s" % (head, " / ".join(ops), " ".join(map(str, sc))))
+        return out
+
+    def prove(self):
+        fails = super().prove()
+        self._broken = bool(fails)
+        return fails
+
+    def correspond(self, cases, tag="cases"):
+        impl, model = super().correspond(cases, tag)
+        if tag == "cases" and any(a != b for a, b in zip(impl, model)):
+            self._broken = True
+        return impl, model
+
+    def race_cases(self, cases):
+        r = self.rng.fork()
+        if getattr(self, "_broken", False):
+            return self.race_space(16, 80) + self.race_random(r, 3000)
+        full = self.race_space(16, 80)
+        n = 300 if self.tier == "quick" else 3000
+        return [full[r.below(len(full))] for _ in range(n)] + self.race_random(r, n // 3)
+
+    def run_race(self, cases):
+        """in chunks; once a chunk contains an oracle hit the remaining cases are not run"""
+        out, hit = [], False
+        for i in range(0, len(cases), 1500):
+            chunk = cases[i:i + 1500]
+            if hit:
+                out += ["<not run>"] * len(chunk)
+                continue
+            obs = super().run_race(chunk)
+            out += obs
+            hit = any(self.race_oracle(c, a) for c, a in zip(chunk, obs))
         return out
 
     def search_cases(self):
@@ -432,6 +534,8 @@ class C32(Check):
         return None
 
     def oracle(self, case, obs):
+        if obs == "<not run>":
+            return None
         if "<deadlock>" in obs:
             return "operations did not complete (deadlock)"
         if obs.startswith("<impl"):
